@@ -118,7 +118,13 @@ func Bytes(name string, n int) string {
 	return string(b)
 }
 
-func Digits(name string, n int) string { return Bytes(name, n) }
+func Digits(name string, n int) string {
+	b := make([]byte, n)
+	for i := range b {
+		b[i] = byte('0' + atoi(next(fmt.Sprintf("%s[%d]", name, i), "digit").Value))
+	}
+	return string(b)
+}
 
 func Decimal(name string, scale int) decimal.Decimal {
 	in := next(name, "decimal")
